@@ -75,7 +75,11 @@ class G:
             lang = self.other()
             self.w('\\foreignlanguage{%s}{' % lang)
             self.stack.append(LMAP[lang])
+            if r.random() < .3:
+                self.w(r.choice([' ', '\n', '  ']))        # white space at the border of the insertion is copied
             self.seq(r.randint(1, 5))
+            if r.random() < .3:
+                self.w(r.choice([' ', '\n', ' \n']))
             self.stack.pop()
             self.w('}')
         elif k == 'optend':
